@@ -114,10 +114,10 @@ def lean_audit(modules, theorems, tag):
         f.write(src)
     rc, out = _lake(['env', 'lean', path], timeout=600)
     res = {t: None for t in theorems}
-    for m in re.finditer(r"'([^']+)' depends on axioms: \[([^\]]*)\]", out):
+    for m in re.finditer(r"'(\S+)' depends on axioms: \[([^\]]*)\]", out):
         if m.group(1) in res:
             res[m.group(1)] = [a.strip() for a in m.group(2).replace('\n', ' ').split(',') if a.strip()]
-    for m in re.finditer(r"'([^']+)' does not depend on any axioms", out):
+    for m in re.finditer(r"'(\S+)' does not depend on any axioms", out):
         if m.group(1) in res:
             res[m.group(1)] = []
     return res, out
